@@ -54,7 +54,7 @@ impl Op {
 pub struct Snap {
     pub bal: [u128; 3], pub fee: [u128; 3], pub all: [u128; 3], pub burn: [u128; 3], pub supply: u128,
     pub lp: [u128; 4], pub lp_self: u128, pub cfg: [u64; 4], pub height: u64,
-    pub user: [[u128; 3]; 4], pub coll: [u128; 3],
+    pub user: [[u128; 3]; 4], pub coll: [u128; 3], pub qmis: Option<String>,
 }
 pub fn snap(w: &TrioWorld) -> Snap {
     let c = w.config();
@@ -64,7 +64,7 @@ pub fn snap(w: &TrioWorld) -> Snap {
         bal: [w.pool_bal(0), w.pool_bal(1), w.pool_bal(2)], fee: w.fees_query(false), all: w.fees_query(true), burn: w.burned_query(),
         supply: w.lp_supply(), lp: [w.lp_bal("alice"), w.lp_bal("bob"), w.lp_bal("carol"), w.lp_bal("donor")], lp_self: w.lp_bal(w.trio.as_str()),
         cfg: [c.initial_amp, c.future_amp, c.initial_amp_block, c.future_amp_block], height: w.height(),
-        user, coll: [w.bal(0, COLLECTOR), w.bal(1, COLLECTOR), w.bal(2, COLLECTOR)],
+        user, coll: [w.bal(0, COLLECTOR), w.bal(1, COLLECTOR), w.bal(2, COLLECTOR)], qmis: w.ledger_queries_disagree(),
     }
 }
 fn pool_obs(s: &Snap) -> Vec<String> {
@@ -131,6 +131,7 @@ fn monitors(cx: &mut Ctx, op: &Op, ok: bool, before: &Snap, after: &Snap) {
         if after.bal[k] < after.fee[k] { out.monitor_fail("C04", "pool balance below the pending protocol fee", rp.clone()); }
         if b(after.all[k]) != b(after.fee[k]) + b(after.coll[k]) { out.monitor_fail("C04", "all-time protocol fee ledger != pending + received by the collector", rp.clone()); }
     }
+    if let Some(m) = &after.qmis { out.monitor_fail("C07", m, rp.clone()); }
     if b(after.supply) != after.lp.iter().fold(b(after.lp_self), |a, x| a + b(*x)) { out.monitor_fail("C04", "LP supply != sum of LP balances", rp.clone()); }
     if !ok {
         if before != after { out.monitor_fail("C04", "a rejected operation changed balances or contract state", rp.clone()); }
@@ -275,6 +276,14 @@ pub fn run_history(out: &mut Out, rng: &mut Rng, h: &History) {
         replay["ops"].as_array_mut().unwrap().push(op.json());
         // C14: the Simulation query issued in the same state right before the swap
         let quote = if let Op::Swap { i, j, x, .. } = &op { Some(w.simulate(*i, *j, *x)) } else { None };
+        if let (Some(q), Op::Swap { i, j, x, .. }) = (&quote, &op) {
+            // correspondence of the query path itself (Stable3Quotes.simulate3 on the state the model reaches by the same history)
+            let input = format!("(({}, {}, ({}, {}, {}), ({}, {}, {})), {}, ({}, {}, {}))", h.amp, h_init, h.fees.0, h.fees.1, h.fees.2,
+                                coqbool(h.kinds[0]), coqbool(h.kinds[1]), coqbool(h.kinds[2]), coqlist(&items), i, j, x);
+            let o: Vec<String> = match q { Ok(s) => vec!["0".into(), s.return_amount.to_string(), s.spread_amount.to_string(), s.swap_fee_amount.to_string(),
+                                                         s.protocol_fee_amount.to_string(), s.burn_fee_amount.to_string()], Err(_) => vec!["1".into()] };
+            out.case("c14_sim3", &input, &o, replay.clone());
+        }
         let r = exec(&mut w, &op);
         let after = snap(&w);
         // C15 on the 3pool (no belief price in this stream): accepted <=> floor(spread*1e18/(gross+spread)) <= min(max_spread or 1%, 50%)
